@@ -151,9 +151,35 @@ def rule_D6_ownership(tree: Tree) -> RuleResult:
         r.instances += 1
         bad = []
         for st in c.node.body:
-            if isinstance(st, ast.Assign) and _is_mutable_literal(st.value):
-                bad.append(f"class attribute {src(st, 60)}")
-            if isinstance(st, ast.AnnAssign) and st.value is not None and _is_mutable_literal(st.value):
+            nm = None
+            if isinstance(st, ast.Assign) and _is_mutable_literal(st.value) and isinstance(st.targets[0], ast.Name):
+                nm = st.targets[0].id
+            if isinstance(st, ast.AnnAssign) and st.value is not None and _is_mutable_literal(st.value) and isinstance(st.target, ast.Name):
+                nm = st.target.id
+            if nm is None:
+                continue
+            # a class-level container is shared state when the code changes it in place (through self / the class) without every instance
+            # getting its own in __init__; a table that is only read is a constant
+            init = c.methods.get("__init__")
+            own = init is not None and any(isinstance(a, (ast.Assign, ast.AnnAssign)) and dotted(a.targets[0] if isinstance(a, ast.Assign) else a.target) == f"self.{nm}"
+                                           for a in body_walk(init.node))
+            changed = False
+            for g in tree.all_funcs():
+                for x in body_walk(g.node):
+                    tgt = None
+                    if isinstance(x, ast.Call) and isinstance(x.func, ast.Attribute) and x.func.attr in MUTATORS:
+                        tgt = x.func.value
+                    elif isinstance(x, (ast.Assign, ast.AugAssign, ast.Delete)):
+                        for t in (x.targets if isinstance(x, (ast.Assign, ast.Delete)) else [x.target]):
+                            if isinstance(t, ast.Subscript):
+                                tgt = t.value
+                            elif isinstance(x, ast.AugAssign):
+                                tgt = t
+                    while isinstance(tgt, ast.Subscript):
+                        tgt = tgt.value
+                    if isinstance(tgt, ast.Attribute) and tgt.attr == nm and not isinstance(tgt.value, ast.Constant):
+                        changed = True
+            if changed and not own:
                 bad.append(f"class attribute {src(st, 60)}")
         for f in c.methods.values():
             a = f.node.args
@@ -313,6 +339,17 @@ def rule_D6_nondet(tree: Tree) -> RuleResult:
                         bad.append((n, f"call of {d or n.func.attr}"))
             if isinstance(n, ast.Attribute) and dotted(n) in ("os.environ",):
                 bad.append((n, "reads os.environ"))
+            # text written to stdout / stderr outside the logging framework is encoded with the locale of the terminal: a non-ASCII character raises
+            # UnicodeEncodeError under LANG=C and the exception changes what is exported
+            if isinstance(n, ast.Call) and dotted(n.func) in ("print", "sys.stdout.write", "sys.stderr.write"):
+                lit = [x.value for x in ast.walk(n) if isinstance(x, ast.Constant) and isinstance(x.value, str)]
+                if any(ord(ch) > 127 for t in lit for ch in t):
+                    bad.append((n, "print of a non-ASCII literal (depends on the terminal encoding)"))
+        # memoising decorators keep results across run() calls (hidden module-level state keyed by the arguments only)
+        for dec_ in f.node.decorator_list:
+            dn = dotted(dec_.func if isinstance(dec_, ast.Call) else dec_) or ""
+            if dn.split(".")[-1] in ("lru_cache", "cache", "cached_property", "memoize"):
+                bad.append((dec_, f"decorator @{dn} (results survive run() and ignore what changed on disk or in the key log)"))
         for n, what in bad:
             r.ob(False, Finding("D6b", f"{f.key}:nondeterminism:{what.replace(' ', '-')}", f"{f.qualname}: {what} makes the export depend on something other than capture, secrets and options", f.module.line(n)))
         if not bad:
